@@ -9,20 +9,37 @@ idx = pd.date_range("2020-01-01", periods=12)
 data = pd.DataFrame(100 + rs.randn(12, len(names)).cumsum(axis=0), index=idx, columns=names)
 def mk():
     return bt.Strategy("s", [bt.algos.RunWeekly(), bt.algos.SelectAll(), bt.algos.WeighEqually(), bt.algos.Rebalance()], children=["alpha", "zeta", "k", "x9", "mid"])
+def mk_nested():
+    st = lambda: [bt.algos.RunWeekly(), bt.algos.SelectAll(), bt.algos.WeighEqually(), bt.algos.Rebalance()]
+    return bt.Strategy("top", st(), children=[bt.Strategy(n, st(), children=[a, b]) for n, a, b in (("omega_s", "zeta", "k"), ("alpha_s", "alpha", "x9"), ("mid_s", "mid", "b2"), ("q_s", "a1", "omega"))] + ["k"])
 if PARAMS.get("mode") == "hashseed":
     t = bt.Backtest(mk(), data); t.run()
-    print("JSON:" + json.dumps(dict(evaluations=1, distinct=1, failures=[], columns=list(t.strategy.universe.columns), final=float(t.strategy.value), hashseed=os.environ.get("PYTHONHASHSEED"))))
+    t2 = bt.Backtest(mk_nested(), data); t2.run()
+    print("JSON:" + json.dumps(dict(evaluations=2, distinct=2, failures=[], columns=list(t.strategy.universe.columns) + ["|"] + list(t2.strategy.universe.columns) + ["|"] + [m.full_name for m in t2.strategy.members],
+                                    final=[float(t.strategy.value), float(t2.strategy.value)], hashseed=os.environ.get("PYTHONHASHSEED"))))
     sys.exit(0)
+fee = lambda q, p: 1.0 + abs(q) * 0.01
 for it in range(N):
     s = mk()
     d0 = data.copy(deep=True)
+    sig = pd.DataFrame(rs.rand(12, len(names)) > 0.5, index=idx, columns=names)
+    extra = {"signal": sig, "bidoffer": pd.DataFrame(0.01, index=idx, columns=names), "note": "not a frame"}
+    extra_ids = {k: id(v) for k, v in extra.items()}; sig0 = sig.copy(deep=True)
+    cf0, ip0 = s.commission_fn, s.integer_positions
+    # a backtest with its own cost model and data, then plain ones from the same template
+    t0 = bt.Backtest(s, data, initial_capital=10000.0, commissions=fee, integer_positions=False, additional_data=extra)
     t1 = bt.Backtest(s, data, initial_capital=10000.0); t2 = bt.Backtest(s, data, initial_capital=10000.0)
+    t0.run()
+    if s.commission_fn is not cf0 or s.integer_positions is not ip0: fails.append(dict(clause="template-settings-changed-by-a-backtest"))
+    if {k: id(v) for k, v in extra.items()} != extra_ids or not extra["signal"].equals(sig0) or len(extra["signal"]) != 12: fails.append(dict(clause="additional-data-dict-mutated"))
     order = rs.rand() < 0.5
     (t2 if order else t1).run(); (t1 if order else t2).run()
     evals += 1
     if not data.equals(d0): fails.append(dict(clause="input-frame-mutated"))
     if s.children and any(getattr(c, "_position", 0) != 0 for c in s.children.values()): fails.append(dict(clause="template-mutated"))
     if not t1.strategy.prices.equals(t2.strategy.prices): fails.append(dict(clause="same-template-backtests-differ"))
+    if float(t1.strategy.fees.abs().sum()) != 0.0: fails.append(dict(clause="backtest-inherits-cost-model-of-a-sibling-backtest", fees=float(t1.strategy.fees.sum())))
+    if {k: id(v) for k, v in extra.items()} != extra_ids: fails.append(dict(clause="additional-data-dict-mutated-by-run"))
     p = t1.strategy.prices.copy(); t1.run()
     if not p.equals(t1.strategy.prices): fails.append(dict(clause="rerun-changed-results"))
     if it < 1: samples.append(dict(final_value=float(t1.strategy.value)))
